@@ -1,7 +1,27 @@
 """C12 - time integration adapters conserve the integral (engine C)."""
-from harness import ccheck
+from harness import acheck, ccheck
+from harness import families as F
 
-replay = ccheck.replay
+A_CLAUSES = ("C01.value", "C01.pull_error", "C01.served_but_unavailable")
+
+
+def replay(case):
+    if "path" in case and "family" in case.get("cfg", {}):
+        return acheck.replay_case(case, A_CLAUSES, None)
+    return ccheck.replay(case)
+
+
+def a_cases(tier):
+    """the adapters inside a real composition: producers that start later/earlier than the composition (double initial publication),
+    consumers with and without initial pull - the integral over the first interval must be right as well"""
+    q = tier == "quick"
+    cs = []
+    for ch in ([["A", None]], [["A", 0.5]], [["A", 0.0]], [["M", 0.0, True]], [["M", None, True]], [["M", 0.5, False]], [["S", 2], ["A", None]], [["F", 1], ["A", None]]):
+        for starts in ((0, 0), (1, 0), (2, 0), (0, 1), (0, 2)):
+            for pi in (True, False):
+                cs.append(F.pair(ch, end=5 if q else 7, starts=starts, pull_initial=pi))
+        cs.append(F.pair(ch, end=5 if q else 7, starts=(2, 0), order=("B", "A")))
+    return cs
 
 
 def cfgs(tier):
@@ -30,11 +50,13 @@ def cfgs(tier):
 
 def run(tier, seed, agg):
     ccheck.run_cases(cfgs(tier), agg, seed)
+    acheck.run_cases(a_cases(tier), A_CLAUSES, agg, None, seed)
     return dict(
         level="model_checking",
         rule="explicit-state BFS to a fixpoint over all interleavings of push(gap in {1,2,3}) and pull(t) (non-decreasing t on the half-hour lattice: every partition of the period into consumer steps, "
         "publications arriving lazily or in advance) for AvgOverTime and SumOverTime x {linear, step 0, .25, .5, 1} x {per_time, absolute} x source units {mm/h, mm, 1}; "
         "oracle = exact integral (Fractions) of the reference interpolant over [previous pull, pull], divided by the elapsed time for averages, with the result converted to source units x hour; reduced units checked",
         bound=dict(lag_window_h=2.5 if tier == "quick" else 4, lattice_h=0.5, gaps="{1,2,3}"),
-        assumptions=["repeated pulls for the same time (p0 = p1) are outside the statement and accepted either way", "the first pull integrates from the first publication"],
+        assumptions=["repeated pulls for the same time (p0 = p1) are outside the statement and accepted either way", "the first pull integrates from the first publication",
+                     "additionally the adapters are run inside real compositions (engine A: all step choices, start offsets of producer/consumer 0-2 h, with/without initial pull) against the same reference"],
     )
